@@ -41,13 +41,16 @@ def tstat(values, exact):
 # --------------------------------------------------------------------------------------
 # scenario rows
 # --------------------------------------------------------------------------------------
-def row_harmonic(rnd, hmc=False):
-    N = rnd.randint(1, 4)
+def row_harmonic(rnd, hmc=False, single_composite=False):
+    N = 1 if single_composite else rnd.randint(1, 4)
     L = gen.rfloat(rnd, 7.0, 10.0, 3)
     cell = [[L, 0, 0], [0, L, 0], [0, 0, L]]
     T = gen.logu(rnd, 100.0, 3000.0)
     kT = T * kB
     prop = "hmc" if hmc else rnd.choice(["Ball", "Box", "Sphere", "Ball+Box", "disp*2", "disp+disp", "Translation", "Ball*2"])
+    if single_composite:
+        # one particle (label 0) under a composite of two displacement moves: the second finds nobody left to move
+        prop = rnd.choice(["disp*2", "disp+disp"])
     sigma = L / 9.0 if prop == "Translation" else gen.rfloat(rnd, 0.15, 0.5, 3)
     k = kT / sigma**2
     c = [L / 2] * 3
@@ -108,11 +111,12 @@ def row_dipole(rnd):
     pos = [(c + 0.5 * d * v).tolist(), (c - 0.5 * d * v).tolist()]
     atoms = {"numbers": [rnd.choice([1, 8, 29]), rnd.choice([1, 8, 29])], "positions": pos, "cell": cell, "pbc": True,
              "arrays": {"initial_charges": [q, -q]}, "constraints": []}
-    prop = rnd.choice(["Rotation", "TranslationRotation", "Rotation"])
+    prop = rnd.choice(["Rotation", "TranslationRotation", "Rotation", "Rotation*2"])
     sc = {"row": "dipole", "proposal": prop, "driver": "Canonical", "atoms": atoms,
           "calc": {"style": "minimal", "pot": {"k": 0.0, "field": (F * u).tolist()}},
           "params": {"temperature": T, "max_cycles": 1},
-          "moves": [{"name": "r", "move": {"type": "disp", "labels": [0, 0], "op": {"type": prop}}}],
+          "moves": [{"name": "r", "move": {"type": "disp", "labels": [0, 0], "op": {"type": prop}}}] if prop != "Rotation*2" else
+                   [{"name": "r", "criteria": "Canonical", "move": {"type": "mul", "n": 2, "item": {"type": "disp", "labels": [0, 0], "op": {"type": "Rotation"}}}}],
           "field_dir": u.tolist(), "observables": [{"name": "cos_theta", "exact": 1.0 / math.tanh(x) - 1.0 / x, "floor": 0.015},
                                                      {"name": "bond", "exact": d, "floor": 1e-6}],
           "veto": rnd.choice([0.0, 0.2]), "steps_unit": 3000, "x": x}
@@ -189,6 +193,7 @@ def row_gc(rnd, dilute=False, k=None):
 
 
 ROWS = [("harmonic", lambda r: row_harmonic(r)), ("harmonic", lambda r: row_harmonic(r)), ("harmonic_hmc", lambda r: row_harmonic(r, True)),
+        ("harmonic_single_composite", lambda r: row_harmonic(r, False, True)),
         ("dipole", row_dipole), ("dipole", row_dipole), ("npt", row_npt), ("npt", row_npt),
         ("gc_atom", lambda r: row_gc(r, False, 1)), ("gc_diatomic", lambda r: row_gc(r, False, 2)),
         ("gc_dilute", lambda r: row_gc(r, True)), ("gc_diatomic", lambda r: row_gc(r, False, 2))]
